@@ -8,6 +8,7 @@ interpreter under another PYTHONHASHSEED.  All digests must agree.
 import hashlib
 import json
 import os
+import random
 import subprocess
 import sys
 from collections import Counter
@@ -72,7 +73,7 @@ def g_det_dist(r, scale=1.0):
 
 def g_net(r, deterministic=False, small=False, poisson_ok=True):
     n = r.choice([1, 1, 2] if small else [1, 2, 2, 3])
-    k = r.choice([1, 1, 2])
+    k = r.choice([1, 1, 2, 3])
     classes = ["K%d" % i for i in range(k)]
     gd = (lambda s=1.0: g_det_dist(r, s)) if deterministic else (lambda s=1.0: g_time_dist(r, s))
     N = {"n": n, "classes": classes}
@@ -151,6 +152,8 @@ def g_net(r, deterministic=False, small=False, poisson_ok=True):
             N["ccm"] = [{c: {d: (1.0 / k) for d in classes} for c in classes} for _ in range(n)]
     if k > 1 and not kinds & {"pb", "fpb"} and r.random() < 0.2:
         N["cct"] = {classes[0]: {classes[1]: gd(2.0)}}
+        if k > 2 and r.random() < 0.6:
+            N["cct"][classes[0]][classes[2]] = gd(2.0)     # two candidate changes: the engine draws both and takes the earlier
     N["baulk"] = None
     if not deterministic and r.random() < 0.15:
         N["baulk"] = {c: [[0.0, 0.5, 1.0] if r.random() < 0.6 else None for _ in range(n)] for c in classes}
@@ -191,6 +194,8 @@ def gen_c15(r, tier):
         S["between"].append({"kind": "same", "seed": r.randint(0, 10 ** 6), "T": float(r.choice([2, 5]))})
     S["fresh"] = r.random() < (0.02 if tier == "quick" else 0.04)
     S["reuse_tracker"] = r.random() < 0.4
+    # drawn from a private stream so that the plans generated so far keep their seeds
+    S["perm2"] = mode == "repeat" and random.Random(S["seed"] * 7 + 1).random() < 0.5
     if mode == "isolation":
         S["chunks"] = sorted(round(r.uniform(0, S["T"]), 2) for _ in range(r.randint(1, 4)))
     return S
@@ -229,15 +234,18 @@ def mk_dist(d):
     return getattr(D, k)(*d[1:])
 
 
-def build_net(N, abort_after=None):
+def build_net(N, abort_after=None, perm=False):
+    """perm: the same parameters with every per-class dictionary written in the reverse key order (equal as dictionaries)"""
     R = ciw.routing
     n = N["n"]
-    classes = N["classes"]
+    classes = list(reversed(N["classes"])) if perm else list(N["classes"])
+    first_class = N["classes"][0]
+    rev = (lambda items: list(reversed(list(items)))) if perm else (lambda items: list(items))
     kw = {}
     kw["arrival_distributions"] = {c: [mk_dist(d) for d in N["arr"][c]] for c in classes}
     kw["service_distributions"] = {c: [mk_dist(d) for d in N["srv"][c]] for c in classes}
     if abort_after is not None:
-        kw["service_distributions"][classes[0]][0] = AbortingDist(abort_after)
+        kw["service_distributions"][first_class][0] = AbortingDist(abort_after)
         for c in classes:
             if kw["arrival_distributions"][c][0] is None:
                 kw["arrival_distributions"][c][0] = ciw.dists.Deterministic(0.7)
@@ -281,15 +289,15 @@ def build_net(N, abort_after=None):
             routing[c] = R.ProcessBased(lambda ind, sim, routes=routes: list(routes[ind.id_number % len(routes)]))
     kw["routing"] = routing
     if N.get("prio"):
-        kw["priority_classes"] = dict(N["prio"])
+        kw["priority_classes"] = dict(rev(N["prio"].items()))
     if N.get("batch"):
         kw["batching_distributions"] = {c: [mk_dist(d) for d in N["batch"][c]] for c in classes}
     if N.get("ren"):
         kw["reneging_time_distributions"] = {c: [mk_dist(d) for d in N["ren"][c]] for c in classes}
     if N.get("ccm"):
-        kw["class_change_matrices"] = [{c: dict(row) for c, row in m.items()} for m in N["ccm"]]
+        kw["class_change_matrices"] = [{c: dict(rev(row.items())) for c, row in rev(m.items())} for m in N["ccm"]]
     if N.get("cct"):
-        kw["class_change_time_distributions"] = {c: {d: mk_dist(x) for d, x in row.items()} for c, row in N["cct"].items()}
+        kw["class_change_time_distributions"] = {c: {d: mk_dist(x) for d, x in rev(row.items())} for c, row in rev(N["cct"].items())}
     if N.get("baulk"):
         def mkb(tab):
             if tab is None:
@@ -341,12 +349,12 @@ def run_item(item, main_net_obj, main_N):
         pass
 
 
-def main_run(S, net=None, tracker=None):
+def main_run(S, net=None, tracker=None, perm=False):
     """seed; build; run  -> (digest, number of records)"""
     from decimal import getcontext
     ciw.seed(S["seed"])
     if net is None:
-        net = build_net(S["main"])
+        net = build_net(S["main"], perm=perm)
     Q = mk_sim(net, S["main"], exact=S.get("exact"), tracker=tracker)
     Q.simulate_until_max_time(S["T"])
     return digest_of(Q), net
@@ -408,8 +416,10 @@ def run_c15(S, oracles=None, wall=60):
         for item in S["between"]:
             counts["F9:between:" + run_item(item, netA if mode in ("reuse", "reuse_same") else net_for_same, S["main"])] += 1
         if mode == "repeat":
-            (dB, nB), _ = main_run(S, tracker=shared_tracker)
-            what = "second run after seed(s) on a freshly built network"
+            (dB, nB), _ = main_run(S, tracker=shared_tracker, perm=bool(S.get("perm2")))
+            what = "second run after seed(s) on a freshly built network" + (" (same parameters, dictionaries written in the reverse key order)" if S.get("perm2") else "")
+            if S.get("perm2"):
+                counts["F9:second_build_with_reversed_dict_order"] += 1
         elif mode in ("reuse", "reuse_same"):
             (dB, nB), _ = main_run(S, net=netA, tracker=shared_tracker)
             what = "second run after seed(s) re-using the first run's Network object"
